@@ -33,7 +33,16 @@ void harness(void)
 #else
   uint8_t *ad = malloc(adlen); __CPROVER_assume(ad);
 #endif
-#if PROG == 1 || PROG == 3            /* encrypt: in = m (mlen), out = c (mlen + 8) */
+#ifdef TJV_ADJ    /* separate, NON-overlapping buffers that are neighbours in memory: output first, then 0..7 bytes of gap, then input */
+  unsigned gap = nondet_uint(); __CPROVER_assume(gap < 8);
+#if PROG == 1 || PROG == 3
+  uint8_t *arena = malloc((mlen + 8) + gap + mlen); __CPROVER_assume(arena);
+  uint8_t *outb = arena, *inb = arena + (mlen + 8) + gap;
+#else
+  uint8_t *arena = malloc(mlen + gap + (mlen + 8)); __CPROVER_assume(arena);
+  uint8_t *outb = arena, *inb = arena + mlen + gap;
+#endif
+#elif PROG == 1 || PROG == 3            /* encrypt: in = m (mlen), out = c (mlen + 8) */
 #ifdef INPLACE
   uint8_t *outb = malloc(mlen + 8); __CPROVER_assume(outb);
   uint8_t *inb = outb;
